@@ -12,11 +12,12 @@ structure C15St where
   leaving : Bool                       -- the final `stopped` / `finished` has begun
   restartsPending : Nat
   timers : List (Nat × TimerKind)
+  liveAtFire : List (Nat × Bool)       -- interval_with timer ↦ was the actor held when it last fired
   deriving Repr, DecidableEq
 
 def monC15 (c : MonCtx) : Mon C15St where
   init := { hold := HoldSt.init c.h0 c.k0, stopIssued := false, failure := false, terminated := false,
-            leaving := false, restartsPending := 0, timers := [] }
+            leaving := false, restartsPending := 0, timers := [], liveAtFire := [] }
   step st l :=
     -- the actor is held by some strong handle (of whatever kind) and nothing has asked it to go
     let live := st.hold.strongHeld && !st.stopIssued && !st.failure && !st.terminated && !st.leaving
@@ -27,10 +28,17 @@ def monC15 (c : MonCtx) : Mon C15St where
       | .ctxWeak .weakAddr none => true
       | .timerEnd t =>
         (match lookup t st.timers with
-         | some .interval | some .intervalWith => true
+         | some .interval => true
          | _ => false)
       | _ => false)
-    if bad then none else
+    -- an `interval_with` timer whose closure ran while the actor was held must not end before the actor does
+    let bad2 := !st.failure && !st.terminated && !st.leaving && !st.stopIssued && (match l with
+      | .timerEnd t => lookup t st.timers == some .intervalWith && lookup t st.liveAtFire == some true
+      | _ => false)
+    let st := (match l with
+      | .fire t _ => { st with liveAtFire := (t, live) :: st.liveAtFire }
+      | _ => st)
+    if bad || bad2 then none else
     let st := { st with hold := st.hold.step l }
     match l with
     | .stopReq _ _ | .ctxStop _ => some { st with stopIssued := true }
@@ -38,7 +46,8 @@ def monC15 (c : MonCtx) : Mon C15St where
     | .begin _ _ .halt | .begin _ _ .tryHalt | .begin _ _ .consume => some { st with stopIssued := true }
     | .ctxTimer t k _ => some { st with timers := (t, k) :: st.timers }
     | .cbBegin .stopped =>
-      if st.restartsPending > 0 then some { st with restartsPending := st.restartsPending - 1 }
+      -- a processed restart legitimately ends the timers of the incarnation that stops
+      if st.restartsPending > 0 then some { st with restartsPending := st.restartsPending - 1, timers := [] }
       else some { st with leaving := true }
     | .cbBegin .finished => some { st with leaving := true }
     | .streamEnd => some { st with stopIssued := true }
